@@ -6,7 +6,27 @@ def adt_short(adt):
     return adt.split('::')[-1]
 
 
+_PATH_MEMO = {}
+
+
 def paths(term, xf=()):
+    """memoised front: yields the distinct (origin, transforms) pairs of a term"""
+    if xf:
+        for o, x in paths(term):
+            yield o, x + xf
+        return
+    key = id(term)
+    hit = _PATH_MEMO.get(key)
+    if hit is None or hit[0] is not term:
+        res = frozenset(_paths(term, ()))
+        if len(_PATH_MEMO) > 200000:
+            _PATH_MEMO.clear()
+        _PATH_MEMO[key] = (term, res)
+        hit = _PATH_MEMO[key]
+    yield from hit[1]
+
+
+def _paths(term, xf=()):
     """yield (origin, transforms) for every data path of a string-ish term.
     origin: ('field', 'Adt.field') | ('const', v) | ('global', path) | ('param', name) | ('other', tag)
     transforms: tuple innermost-first, e.g. ('snake', 'kw')"""
@@ -113,13 +133,20 @@ def all_origins(term):
     return {o for o, _ in paths(term)} | ctrl_origins(term)
 
 
+_COND_MEMO = {}
+
+
 def cond_origins(conds):
     """origins mentioned by a tuple of leaf conditions (from prov.leaves / tmpl Choice alts)"""
     out = set()
     for c in conds:
         if c[0] in ('if', 'match') and c[1] is not None:
-            out |= all_origins(c[1])
-            out |= op_origins(c[1])
+            k = id(c[1])
+            hit = _COND_MEMO.get(k)
+            if hit is None or hit[0] is not c[1]:
+                hit = (c[1], frozenset(op_origins(c[1]) | {o for o, _ in paths(c[1])}))
+                _COND_MEMO[k] = hit
+            out |= hit[1]
     return out
 
 
